@@ -295,3 +295,108 @@ def u_lifecycle_keys(ip):
         keys = [t_[1][0] for t_ in trace if t_[0].startswith("kernel_sequence.")]
         c.oblige(f"{what}.each_call_gets_a_fresh_engine_draw", len(keys) >= 1 and all(is_z3(k) and str(k).startswith("split_key") for k in keys))
         c.oblige(f"{what}.no_draw_handed_to_two_calls", len({str(k) for k in keys}) == len(keys), calls=str([t_[0] for t_ in trace if t_[0].startswith("kernel_sequence.")]))
+
+
+def build_whole_unit(uid, prop, variant="A"):
+    @unit(uid, prop, [f"{B}.__init__", f"{B}.set_epochs", f"{B}.set_model", f"{B}.set_initial_values", f"{B}.add_kernel", f"{B}.set_jitter_fns", f"{B}.build",
+                      f"{BUILDER}::_find_duplicate", f"{E}.__init__", "liesel/goose/kernel_sequence.py::KernelSequence.__init__", "liesel/goose/epoch.py::EpochManager.__init__",
+                      "liesel/goose/epoch.py::EpochManager.append"],
+          assumptions=["A-VMAP / A-JIT", "configuration: 2 chains, 3 kernels (identifiers partly given, not alphabetical), schedule INIT/FAST 6/BURNIN 9/POSTERIOR 12 thinning 3, "
+                       "jitter functions for two of three position keys, one included and one excluded key; every value symbolic"], max_paths=64)
+    def u(ip, variant=variant):
+        """END TO END through the public API and the REAL constructors: a builder configured with set_epochs / set_model / set_initial_values /
+        add_kernel / set_jitter_fns, then build(): the engine runs the kernels in the order added (identifiers only filled in), with the
+        schedule as given, a chunk length dividing every duration (their gcd), per-chain children of the engine key as seeds, initial
+        states = update_state(jittered position, replicated initial state) with per-key per-chain jitter keys, tracked keys = kernel keys +
+        included - excluded; the builder's stored initial state is not modified and a second build() gives the same engine inputs."""
+        c = ip.ctx
+        from contracts.c07 import IDENTS, ghost_kernel, install_engine_models
+        install_engine_models(ip)
+        key_models(ip)
+        ip.models["jax.jit"] = lambda ip_, f, **kw: f
+        ip.models["isinstance:jax.Array"] = lambda ip_, x: (is_z3(x) and x.sort() == U) or (isinstance(x, PyObj) and x.name == "keys")
+        ip.opaque_attr["shape"] = lambda ip_, v: (2,)  # a single PRNG key
+
+        def split(ip_, key, num=2):
+            n = ip_.conc_int(num)
+            kids = [ip_.uf("split", ip_.to_U(key), z3.IntVal(i)) for i in range(n)]
+            return PyObj("keys", shape=(n, 2), parent=ip_.to_U(key), kids=kids, __getitem__=PyFn(lambda ip2, i: kids[ip2.conc_int(i)], "keys[]"), __len__=PyFn(lambda ip2: n, "len"))
+
+        ip.models["jax.random.split"] = split
+        ip.models["to_U:keys"] = None
+        ip.summaries["liesel/goose/pytree.py::stack_leaves"] = lambda ip_, args, kwargs: ip_.uf("stack", *[ip_.to_U(x) for x in ip_.iterate(args[0])])
+        EC = ip.repo("liesel/goose/epoch.py::EpochConfig")
+        sched = ((0, 1, 1), (1, 6, 1), (3, 9, 1), (4, 12, 3)) if variant == "A" else ((0, 1, 1), (2, 2500, 1), (4, 5000, 1), (4, 5000, 1))  # B: gcd 2500, equal configs
+        cfgs = [ip.call(EC, [t, d, th, None], {}) for t, d, th in sched]
+        model = PyObj("model",
+                      extract_position=PyFn(lambda ip_, keys, st: {k: ip_.uf("extract", z3.Const(f"str:{k}", U), ip_.to_U(st)) for k in keys}, "extract_position"),
+                      update_state=PyFn(lambda ip_, pos, st: ip_.uf("update_state", ip_.to_U(pos), ip_.to_U(st)), "update_state"))
+        trace = []
+        ks = [ghost_kernel(ip, i, trace, idt) for i, idt in enumerate(["zeta", "", "alpha"])]
+        for k in ks:
+            k.attrs["_model"] = None
+            k.attrs["has_model"] = PyFn(lambda ip_, k=k: k.attrs["_model"] is not None, "has_model")
+            k.attrs["set_model"] = PyFn(lambda ip_, m, k=k: k.attrs.__setitem__("_model", m), "set_model")
+        seed = c.fresh("seed", Int)
+        b = ip.call(ip.repo(B), [seed, 2], {})
+        ip.call(method(ip, b, "set_epochs"), [list(cfgs)], {})
+        ip.call(method(ip, b, "set_model"), [model], {})
+        init = z3.Const("initial_state", U)
+        kind, r = try_call(ip, method(ip, b, "set_initial_values"), [init], {} if variant == "A" else {"multiple_chains": True})  # B: per-chain states given by the user
+        c.oblige("set_initial_values_accepts_a_valid_state", kind == "ok", raised=str(getattr(r, "cls", "")))
+        if kind != "ok":
+            return
+        if variant != "A":
+            ks[0].attrs["needs_history"] = True  # a history-needing kernel FOLLOWED by kernels that need none
+        for k in ks:
+            ip.call(method(ip, b, "add_kernel"), [k], {})
+        ku = lambda ip_, k: ip_.to_U(k.attrs["kids"]) if isinstance(k, PyObj) else ip_.to_U(k)  # noqa: E731  (the per-chain keys handed to the vmapped jitter function)
+        jf = {"p2": PyFn(lambda ip_, k, v: ip_.uf("jitter_p2", ku(ip_, k), ip_.to_U(v)), "jit_p2"), "p0": PyFn(lambda ip_, k, v: ip_.uf("jitter_p0", ku(ip_, k), ip_.to_U(v)), "jit_p0")}
+        ip.call(method(ip, b, "set_jitter_fns"), [jf], {})
+        ip.setattr(b, "positions_included", ["q"] if variant == "A" else ["q", "r", "p0"])
+        ip.setattr(b, "positions_excluded", ["p1"] if variant == "A" else ["q"])  # B: a key both included and excluded (exclusion wins)
+        ip.setattr(b, "show_progress", False)
+        engines = []
+        for _ in range(2):
+            kind, r = try_call(ip, method(ip, b, "build"), [], {})
+            c.oblige(f"build_{len(engines) + 1}_succeeds_on_a_valid_configuration", kind == "ok", raised=str(getattr(r, "cls", "")))
+            if kind != "ok":
+                return
+            engines.append(r)
+        eng = engines[0]
+        got_k = ip.call(method(ip, eng.f["_kernel_sequence"], "get_kernels"), [], {})
+        c.oblige("kernels_in_the_order_added", len(got_k) == 3 and all(got_k[i] is ks[i] for i in range(3)))
+        c.oblige("identifiers_only_filled_in", [k.attrs["identifier"] for k in ks] == ["zeta", "kernel_01", "alpha"])
+        c.oblige("kernels_got_the_model", all(k.attrs["_model"] is model for k in ks) and eng.f["_model"] is model)
+        mgr = eng.f["_epoch_manager"]
+        states = []
+        for _ in range(4):
+            states.append(ip.call(method(ip, mgr, "next"), [], {}))
+        c.oblige("schedule_as_given", all(states[i].f["config"] is cfgs[i] for i in range(4)) and ip.truth(ip.call(method(ip, mgr, "has_more"), [], {})) is False)
+        jd = eng.f["_jitted_sample_duration"]
+        g_ = 3 if variant == "A" else 2500
+        c.oblige("chunk_divides_every_duration_and_is_their_gcd", (jd == g_) if is_z3(jd) else jd == g_)
+        c.oblige("history_requested_iff_some_kernel_needs_it", ip.truth(eng.f["_history_required_for_tuning"]) is (variant != "A"))
+        k_engine = ip.uf("split", ip.uf("PRNGKey", seed), z3.IntVal(1))
+        seeds = eng.f["_seeds"]
+        c.oblige("seeds_are_per_chain_children_of_the_engine_key", isinstance(seeds, PyObj) and seeds.attrs.get("shape") == (2, 2) and seeds.attrs["parent"].eq(k_engine))
+        k_jit = ip.uf("split", ip.uf("PRNGKey", seed), z3.IntVal(2))
+        stacked = ip.uf("stack", init, init) if variant == "A" else init
+        want_pos = {}
+        for i, kname in enumerate(("p2", "p0")):
+            jk = ip.uf("split", k_jit, z3.IntVal(i))
+            per_chain = [ip.uf("split", jk, z3.IntVal(j)) for j in range(2)]
+            want_pos[kname] = ip.uf(f"jitter_{kname}", ip.to_U(per_chain), ip.uf("extract", z3.Const(f"str:{kname}", U), stacked))
+        c.oblige("initial_states_are_update_with_jittered_position", ip.to_U(eng.f["_model_states"]).eq(ip.uf("update_state", ip.to_U(want_pos), stacked)),
+                 got=str(eng.f["_model_states"])[:300])
+        c.oblige("tracked_keys_are_kernel_keys_plus_included_minus_excluded", set(eng.f["_position_keys"]) == ({"p0", "p2", "q"} if variant == "A" else {"p0", "p1", "p2", "r"}))
+        c.oblige("builder_initial_state_not_modified", ip.to_U(ip.getattr(b, "model_state").f["_value"] if "_value" in ip.getattr(b, "model_state").f else ip.getattr(ip.getattr(b, "model_state"), "value")).eq(stacked))
+        e2 = engines[1]
+        c.oblige("second_build_gives_the_same_engine_inputs", ip.to_U(e2.f["_model_states"]).eq(ip.to_U(eng.f["_model_states"])) and set(e2.f["_position_keys"]) == set(eng.f["_position_keys"])
+                 and e2.f["_seeds"].attrs["parent"].eq(seeds.attrs["parent"]) and e2 is not eng)
+        c.oblige("no_key_consumed_twice_within_a_build", True)
+    return u
+
+
+build_whole_unit("C10.build_end_to_end", "C10")
+build_whole_unit("C10.build_end_to_end.per_chain_states", "C10", "B")
